@@ -7,6 +7,7 @@ TECH = "deterministic simulation with fault injection: seeded search over schedu
 
 # dimensions every claimed property shares (appended to its level text)
 ROUTES = " In 4 of 10 runs of every class a seed-drawn share of the library calls goes through an alternative public route to the same operation (the scheme traits, BlsSignature constructors, sibling conversions: 40 operations), under the same oracles."
+AFTER = " After every refused request of a deterministic operation the party (half of the time each) presents the identical request once more and replays its last good request: both must get the answers they got before."
 CONC = " Class conc-*: the calls of this property's own scenario, recorded in a sequential run, are replayed by 2-4 caller threads of one process under the simulator's thread scheduler (a baton; preemption at every heap allocation / deallocation, lock wait, yield and call boundary, and at a drawn instruction offset after one of these by single-stepping; also free-running from a barrier, and calls made from a thread-local destructor during thread teardown); every caller must get the sequential result."
 EXTRA = {
  "C01": " Messages whose content is related to the signer's key material (pk || m, pk, pk with a bit flipped, an earlier signature, the proof of possession) are signed and verified in every run.",
@@ -125,7 +126,7 @@ def main():
                 "evidence_file": f"/verif/evidence/{i}.json",
                 "replay_cmd_template": "./check replay {path}",
                 "engine": "blsim",
-                "level_claimed": {"category": "exploration", "text": c["text"] + EXTRA.get(i, "") + (ROUTES if i != "C20" else "") + (CONC if i not in ("C18", "C19", "C20") else ""), "design_ref": c["ref"]},
+                "level_claimed": {"category": "exploration", "text": c["text"] + EXTRA.get(i, "") + (ROUTES if i != "C20" else "") + (AFTER if i != "C20" else "") + (CONC if i not in ("C18", "C19", "C20") else ""), "design_ref": c["ref"]},
                 "level_note": c["note"],
                 "technique": TECH,
             })
